@@ -176,17 +176,17 @@ def param(R):
              '_on_event(auto_pong=%s)' % U(a), func=q2, node=c, construct='run->_on_event auto_pong=%s' % U(a))
 
 
-def swallow(R):
+def swallow(R, RID='C14.swallow'):
     q = S + '._send_pong'
     g = R.cfg(q)
     esc = R.exc.escapes(g.ctx)
     leak = sorted(t for t in esc if 'errors.WebSocketError' in R.exc.supers(t))
     sp = R.exc.escapes(R.ctx('websocket.WebSocket.send_pong'))
     fam = sorted(t for t in sp if 'errors.WebSocketError' in R.exc.supers(t))
-    R.ob('C14.swallow', 'no WebSocketError escapes the pong site', not leak,
+    R.ob(RID, 'no WebSocketError escapes the pong site', not leak,
          '%s raised while writing an automatic Pong escapes _send_pong and ends the event loop with an error '
          'Disconnected (send_pong can raise %s)' % (leak, fam), func=q, node=None, construct='_send_pong leaks %s' % leak)
-    R.ob('C14.swallow', 'write failures considered', {'errors.TransportFail', 'errors.WebSocketClosing',
+    R.ob(RID, 'write failures considered', {'errors.TransportFail', 'errors.WebSocketClosing',
                                                       'errors.WebSocketClosed', 'errors.WebSocketUnavailable'} <= set(fam),
          'send_pong raised-set %s' % fam, func=q, node=None, construct='send_pong raised set')
 
